@@ -1,4 +1,4 @@
-from checks import mibcompile, oidindex, atomicwrite, searcher, readerlookup, history, oidtree, decls, refs, types, texts, v1v2, pysnmpload, syntax
+from checks import mibcompile, oidindex, atomicwrite, searcher, readerlookup, history, oidtree, decls, refs, types, texts, v1v2, pysnmpload, syntax, mutate
 
 RULE_MC = ('scenario = terminal state of MibCompile.tla exported by TLC (request x lazily chosen answers of every '
            'component x options); non-trivial = at least one component answered with a failure / fresh / borrow; '
@@ -74,3 +74,6 @@ REGISTRY['C04'] = {'run': pysnmpload.run, 'replay': pysnmpload.replay, 'finish':
 
 REGISTRY['C02'] = {'run': syntax.run, 'replay': syntax.replay, 'finish': {
     'rule': 'scenario = reachable state of Syntax.tla: a file of modules built declaration by declaration (every clause kind with each optional part present/absent, lists of length 0-3, numbers of every token class) x 9 layout offsets x 4 module option sets; every single-declaration file plus simulated files of up to 2 modules x 3 declarations; each rendered twice (other fillers / block bodies) and parsed under three dialects; distinct by (tokens, fillers)', 'exhaustive': False}}
+
+REGISTRY['C11'] = {'run': mutate.run, 'replay': mutate.replay, 'finish': {
+    'rule': 'input = a file of Syntax.tla damaged by one token mutation of Mutate.tla (delete / duplicate / replace / insert with an alphabet holding forbidden words, numbers beyond 64 bits, trailing-hyphen identifiers, illegal and non-ASCII characters) or cut at every character offset; each parsed under one of the three dialects; distinct by text', 'exhaustive': False}}
